@@ -28,7 +28,7 @@ ASSUMPTIONS = ["port names and hardware addresses are unique among the ports "
                "that exist at the same time",
                "a statistics reply whose final part never arrives is simply "
                "never announced"]
-REQUIRED = ["port_status_for_a_port_a_reply_under_way_reports_on", "port_histories", "views_compared", "renames", "deletes",
+REQUIRED = ["port_status_in_one_read_with_the_end_of_the_handshake", "port_status_for_a_port_a_reply_under_way_reports_on", "port_histories", "views_compared", "renames", "deletes",
             "readds", "stale_name_lookups", "stats_histories",
             "multipart_events", "interleaved_histories", "sequential_pairs",
             "features_refreshes", "early_port_status",
@@ -137,7 +137,15 @@ def run_ports (case, rep):
                                               state=1 if cfg & 1 else 0)))
   # (a switch without barrier support ends the handshake with an error for
   #  the barrier request: the early notifications are owed on that path too)
-  peer.handshake(case["dpid"], initial, early=early_raw,
+  # ... and so are the ones that sit behind the handshake-completing answer in
+  # the very same read
+  late_raw = b""
+  for (reason, n, nm, hw, cfg) in case.get("glued", []):
+    late_raw += ofwire.enc_message("port_status", dict(
+      xid=0, reason=reason, desc=ctl.phy_port(n, name=nm, hw=hw, config=cfg,
+                                              state=1 if cfg & 1 else 0)))
+  if late_raw: rep.count("port_status_in_one_read_with_the_end_of_the_handshake")
+  peer.handshake(case["dpid"], initial, early=early_raw, late=late_raw,
                  barrier="error" if case.get("barrier_refused") else "reply")
   if case.get("barrier_refused"): rep.count("handshakes_completed_by_a_refused_barrier")
   con = peer.con
@@ -145,7 +153,7 @@ def run_ports (case, rep):
   model = {p["port_no"]: dict(p) for p in initial}
   former_names = set(); former_hw = set()
   nt = False
-  for (reason, n, nm, hw, cfg) in case.get("early", []):
+  for (reason, n, nm, hw, cfg) in list(case.get("early", [])) + list(case.get("glued", [])):
     rep.count("early_port_status"); nt = True
     if reason == REASON_DELETE:
       if n in model:
@@ -637,6 +645,14 @@ def gen_ports (rng, n, maxlen):
     case = dict(kind="ports", dpid=[0, 101, 102, 1 << 63, (1 << 64) - 1, 105, 106][ci % 7],
                 initial=initial, steps=steps)
     if early: case["early"] = early
+    if rng.random() < 0.3:
+      # the first notifications after the handshake arrive in one read with
+      # the answer that completes it
+      k = 0
+      while k < len(steps) and k < 3 and steps[k][0] != REASON_FEATURES: k += 1
+      k = rng.randrange(0, k + 1)
+      if k:
+        case["glued"] = steps[:k]; case["steps"] = steps[k:]
     if rng.random() < 0.3: case["second_connection"] = True
     if rng.random() < 0.25: case["barrier_refused"] = True
     yield case
